@@ -133,6 +133,7 @@ def c11(tier, seed):
     ck.require("mutex_probe.grants")
     ck.require("mutex_probe.aborts")
     ck.require("sim.scenarios_with_reconnects", 100)
+    ck.require("sim.stream_triggers_judged", 50)
     return ck.finish()
 
 
